@@ -438,6 +438,7 @@ func (r *runner) run(t0 time.Time) int {
 	// classify
 	violations := 0
 	printedKF := map[string]bool{}
+	printedV := map[string]bool{}
 	var lines []string
 	for _, c := range allConfirmed {
 		if c.finding != nil && c.finding.Status == "open" {
@@ -448,6 +449,11 @@ func (r *runner) run(t0 time.Time) int {
 			}
 			continue
 		}
+		vkey := c.obl + "|" + c.v.Label + "|" + strings.Join(c.v.Regions, ",")
+		if printedV[vkey] {
+			continue
+		}
+		printedV[vkey] = true
 		violations++
 		lines = append(lines, fmt.Sprintf("VIOLATION property=%s replay=%s", r.spec.Property, c.replay))
 		fmt.Fprintf(os.Stderr, "violation in %s: %s regions=%v model=%v\n", c.obl, c.v.Label, c.v.Regions, c.v.Model)
@@ -599,6 +605,12 @@ func (r *runner) config(o *Obligation, tc *TierCfg, params map[string]int) *inte
 		TimeoutMs: tc.QueryMs, MaxConcretize: tc.MaxConcretize}
 	for _, a := range interp.DefaultInitAllow {
 		cfg.InitAllow[a] = true
+	}
+	if tc.TimeoutS == 0 {
+		tc.TimeoutS = 300
+		if *tier == "thorough" {
+			tc.TimeoutS = 1500
+		}
 	}
 	if tc.TimeoutS > 0 {
 		cfg.Deadline = time.Now().Add(time.Duration(tc.TimeoutS) * time.Second)
